@@ -11,6 +11,11 @@ import GocoinV.Proofs.C15SegwitInv
 import GocoinV.Proofs.C15Fits
 import GocoinV.Proofs.C15Addr
 import GocoinV.Proofs.C15Case
+import GocoinV.Proofs.C15Base58b
+import GocoinV.Proofs.C15Wif
+import GocoinV.Proofs.C15P2pk
+import GocoinV.Proofs.C15Bch2
+import GocoinV.Proofs.C15Bch3
 namespace GocoinV.Props.C15
 open GocoinV Bech32
 
@@ -255,21 +260,218 @@ theorem bech32_mixed_case_refused (s : Bytes) (hmix : s.any isLower = true ∧ s
 example : ([98, 99, 49, 81] : Bytes).any isLower = true ∧ ([98, 99, 49, 81] : Bytes).any isUpper = true := by
   decide
 
+/-- Base58 decode then encode, for EVERY string: whatever `Decodeb58` accepts re-encodes (`Encodeb58`) to exactly
+    the input. With `b58_decode_encode` this makes Base58 a bijection between accepted strings and non-empty
+    byte strings: a payload has exactly one spelling (no alternative leading characters, no ignored characters). -/
+theorem b58_encode_decode (s pkb : Bytes) (h : Base58.decode s = some pkb) : Base58.encode pkb = s :=
+  Base58.encode_decode s pkb h
+
+/-- non-vacuity: "11z" is accepted -/
+example : Base58.decode [49, 49, 122] = some [0, 0, 57] := by decide +kernel
+
+/-- Base58Check address, decode then re-encode FROM THE DECODED FIELDS (not from the cached input string): if
+    `NewAddrFromString` accepts a non-segwit string `s` as (version, hash), then `String()` of a fresh address
+    with that version and hash is `s` again. -/
+theorem addr_b58_reencode (H : Addr.Hashes) (hs : Bytes) (hlen : 4 ≤ hs.length) (hp : ¬ Addr.segwitPrefix hs)
+    (v : UInt8) (h160 : Bytes) (c : Option Bytes) (h : Addr.fromString H hs = .ok (.b58 v h160 c)) :
+    Addr.toString H (.b58 v h160 none) = some hs := by
+  obtain ⟨dec, hd, hl, hc, he⟩ := (Addr.b58check_accept_iff H hs hlen hp _).mp h
+  simp only [Addr.Addr.b58.injEq] at he
+  obtain ⟨rfl, rfl, _⟩ := he
+  have h21 : dec.headD 0 :: (dec.drop 1).take 20 = dec.take 21 := by
+    cases dec with
+    | nil => simp at hl
+    | cons x t => simp
+  simp only [Addr.toString, h21, hc, List.take_append_drop]
+  rw [Base58.encode_decode hs dec hd]
+
+/-- non-vacuity: "1111" satisfies the side conditions (shown above); acceptance needs a hash, see the harness -/
+example : 4 ≤ ([49, 49, 49, 49] : Bytes).length := by simp
+
+/-! ### WIF private-key strings (lib/btc/wallet.go) -/
+
+/-- C14's executable model of `DecodePrivateAddr` / `PrivateAddr.String` (Model/HD.lean — the definitions C14's
+    oracle runs and its harness compares with the Go code) factors through the string-level codec
+    `AddrWif.decode` / `AddrWif.encode` that the theorems below are about (and that C15's oracle runs). -/
+theorem wif_model_factors (C : WalletCrypto) :
+    (∀ s, HD.decodePrivateAddr C s =
+      match AddrWif.decode C s with
+      | .error e => .error e
+      | .ok (v, k, c) => .ok (HD.newPrivateAddr C k v c)) ∧
+    (∀ key ver compr pa, HD.newPrivateAddr C key ver compr = .ok pa →
+      HD.privAddrString C pa = .ok (AddrWif.encode C ver key compr)) :=
+  ⟨AddrWif.decodePrivateAddr_factors C, AddrWif.privAddrString_factors C⟩
+
+/-- WIF encode then decode, for EVERY version byte, 32-byte key and compression flag, and every hash function
+    returning 32 bytes: `DecodePrivateAddr(String())` hands exactly (version, key, compressed) to
+    `NewPrivateAddr`. -/
+theorem wif_decode_encode (C : WalletCrypto) (hlen : ∀ b, (C.shaHash b).length = 32) (ver : UInt8) (key : Bytes)
+    (compr : Bool) (hk : key.length = 32) :
+    AddrWif.decode C (AddrWif.encode C ver key compr) = .ok (ver, key, compr) :=
+  AddrWif.decode_encode C hlen ver key compr hk
+
+/-- non-vacuity: a hash slot returning 32 bytes and a 32-byte key exist -/
+example : ∃ (C : WalletCrypto) (key : Bytes), (∀ b, (C.shaHash b).length = 32) ∧ key.length = 32 :=
+  ⟨⟨fun _ => [], fun _ => List.replicate 32 0, fun _ => [], fun _ _ => [], fun _ _ => [], fun _ _ => none⟩,
+   List.replicate 32 1, fun _ => by simp, by simp⟩
+
+/-- WIF acceptance stated outright, for EVERY string and hash function, exactly as the code decides: accepted iff
+    the Base58 decoding has 37 or 38 bytes and its last 4 bytes equal the first 4 bytes of the double-SHA256 of
+    the rest; then version = byte 0, key = bytes 1..32, compressed = (38 bytes and byte 33 = 01). A bad character,
+    a wrong length, a wrong checksum are refused; the value of byte 33 of a 38-byte payload is NOT a reason
+    for refusal (see `wif_flag_byte_unchecked_counterexample`). -/
+theorem wif_accept_iff (C : WalletCrypto) (s : Bytes) (v : UInt8) (k : Bytes) (c : Bool) :
+    AddrWif.decode C s = .ok (v, k, c) ↔
+      ∃ pkb, Base58.decode s = some pkb ∧ (pkb.length = 37 ∨ pkb.length = 38) ∧
+        (C.shaHash (pkb.take (pkb.length - 4))).take 4 = pkb.drop (pkb.length - 4) ∧
+        v = pkb.headD 0 ∧ k = (pkb.drop 1).take 32 ∧ c = decide (pkb.length = 38 ∧ pkb.getD 33 0 = 1) :=
+  AddrWif.accept_iff C s v k c
+
+/-- WIF decode then encode: an accepted string whose payload is 37 bytes, or 38 bytes with flag byte 01
+    (`canonicalFlag`), is exactly `String()` of the (version, key, compressed) it decodes to, and the key has
+    32 bytes. Together with `wif_decode_encode`: accepted-with-canonical-flag ⇔ is the encoding of a triple. -/
+theorem wif_encode_decode (C : WalletCrypto) (s pkb : Bytes) (v : UInt8) (k : Bytes) (c : Bool)
+    (hd : Base58.decode s = some pkb) (hcan : AddrWif.canonicalFlag pkb = true)
+    (h : AddrWif.decode C s = .ok (v, k, c)) : AddrWif.encode C v k c = s ∧ k.length = 32 :=
+  AddrWif.encode_decode C s pkb v k c hd hcan h
+
+/-- non-vacuity of `canonicalFlag`: a 37-byte payload is canonical -/
+example : AddrWif.canonicalFlag (List.replicate 37 0) = true := by decide
+
+/-- THE PROPERTY FAILS HERE ON THE UNCHANGED CODE ("decoding and re-encoding an accepted … WIF string yields the
+    same string"): `DecodePrivateAddr` does not check the flag byte. For EVERY version, 32-byte key, flag byte
+    other than 01 and hash function, the Base58Check string of version ‖ key ‖ flag is accepted — as an
+    uncompressed key — and `String()` of the result is a different string. (Bitcoin Core refuses such strings.)
+    The harness replays a concrete witness on the real code: known finding `wif-flag-byte-unchecked`. -/
+theorem wif_flag_byte_unchecked_counterexample (C : WalletCrypto) (hlen : ∀ b, (C.shaHash b).length = 32)
+    (ver flag : UInt8) (key : Bytes) (hk : key.length = 32) (hf : flag ≠ 1) :
+    let buf := ver :: (key ++ [flag])
+    let s := Base58.encode (buf ++ (C.shaHash buf).take 4)
+    AddrWif.decode C s = .ok (ver, key, false) ∧ AddrWif.encode C ver key false ≠ s :=
+  AddrWif.flag_unchecked C hlen ver flag key hk hf
+
+/-! ### pay-to-pubkey scripts -/
+
+/-- `NewAddrFromPkScript` on the P2PK forms, exactly as the code treats them: for EVERY 33-byte string `pk`
+    (no test of the 02/03 prefix) the script 21 ‖ pk ‖ ac, and for EVERY 65-byte string the script 41 ‖ pk ‖ ac,
+    gives the P2PKH address (version 0 / 111) of HASH160(pk) without cached string. -/
+theorem p2pk_script_address (H : Addr.Hashes) (tn : Bool) (pk : Bytes) :
+    (pk.length = 33 → Addr.fromPkScript H (0x21 :: (pk ++ [0xac])) tn =
+      some (.b58 (if tn then 111 else 0) (H.hash160 pk) none)) ∧
+    (pk.length = 65 → Addr.fromPkScript H (0x41 :: (pk ++ [0xac])) tn =
+      some (.b58 (if tn then 111 else 0) (H.hash160 pk) none)) :=
+  ⟨Addr.fromPkScript_p2pk33 H tn pk, Addr.fromPkScript_p2pk65 H tn pk⟩
+
+/-- consequently script → address → script is NOT the identity on P2PK scripts: `OutScript` of the address
+    returned is the 25-byte P2PKH script 76 a9 14 HASH160(pk) 88 ac (the usual wallet convention: the address of a
+    P2PK output is the address of its key) -/
+theorem p2pk_outscript_is_p2pkh (H : Addr.Hashes) (tn : Bool) (pk : Bytes) (h : pk.length = 33 ∨ pk.length = 65) :
+    ∃ a, Addr.fromPkScript H (UInt8.ofNat pk.length :: (pk ++ [0xac])) tn = some a ∧
+      Addr.outScript a = some ([0x76, 0xa9, 20] ++ H.hash160 pk ++ [0x88, 0xac]) := by
+  rcases h with h | h
+  · refine ⟨_, by rw [h]; exact Addr.fromPkScript_p2pk33 H tn pk h, ?_⟩
+    cases tn <;> simp [Addr.outScript]
+  · refine ⟨_, by rw [h]; exact Addr.fromPkScript_p2pk65 H tn pk h, ?_⟩
+    cases tn <;> simp [Addr.outScript]
+
+/-- non-vacuity -/
+example : (List.replicate 33 (2 : UInt8)).length = 33 ∨ (List.replicate 33 (2 : UInt8)).length = 65 := by simp
+
+/-! ### error detection as a distance property -/
+
+/-- Bech32 / Bech32m detect every 1- and 2-character substitution in the data part: if `bech32.Decode` accepts
+    `s` and `s'` with the same human-readable part and the same checksum variant, the strings have equal length
+    (≤ 90 by `Decode`'s own test) and differ — comparing case-insensitively — in at most 2 positions, then they
+    are equal up to case. Equivalently: changing 1 or 2 characters of the data part (checksum included) of an
+    accepted string never gives a string accepted under the same hrp and variant. Proof: XOR-linearity of the
+    GENERATED polymod step on 30-bit states (`ps_lin`), injectivity of the step, and a kernel computation
+    (`decide +kernel`, no native_decide) on the orbits x^k·u mod g, 1 ≤ k ≤ 89, of the 31 non-zero symbols.
+    NOT stated here (see OPEN below): weights 3 and 4; a substitution that turns a Bech32 string into a valid
+    Bech32m string or vice versa (different variant); substitutions that move the separator '1'. -/
+theorem bech32_detects_le2_substitutions (s s' hrp d d' : Bytes) (m : Bool)
+    (h : Bech32.decode s = some (hrp, d, m)) (h' : Bech32.decode s' = some (hrp, d', m))
+    (hlen : s.length = s'.length)
+    (hd : Bech32.hamming (s.map Addr.asciiLower) (s'.map Addr.asciiLower) ≤ 2) :
+    s.map Addr.asciiLower = s'.map Addr.asciiLower :=
+  Bech32.detect_le2 s s' hrp d d' m h h' hlen hd
+
+/-- non-vacuity: "a12uel5l" is accepted, and at distance 0 from itself -/
+example : Bech32.decode [97, 49, 50, 117, 101, 108, 53, 108] = some ([97], [], false) ∧
+    Bech32.hamming [97, 49, 50, 117, 101, 108, 53, 108] [97, 49, 50, 117, 101, 108, 53, 108] ≤ 2 := by decide +kernel
+
+/-- the same at the segwit level: two strings accepted by `SegwitDecode` for the same hrp with the same witness
+    version, of equal length, at case-insensitive distance ≤ 2, are equal up to case — so a 1- or 2-character
+    typo in the program or checksum part of an address is never accepted (as any program). -/
+theorem segwit_detects_le2_substitutions (hrp s s' p p' : Bytes) (v : Nat)
+    (h : segwitDecode hrp s = .ok (v, p)) (h' : segwitDecode hrp s' = .ok (v, p'))
+    (hlen : s.length = s'.length)
+    (hd : Bech32.hamming (s.map Addr.asciiLower) (s'.map Addr.asciiLower) ≤ 2) :
+    s.map Addr.asciiLower = s'.map Addr.asciiLower := by
+  obtain ⟨_, _, _, _, d, m, hdec, hm⟩ := segwitDecode_sound hrp s v p h
+  obtain ⟨_, _, _, _, d', m', hdec', hm'⟩ := segwitDecode_sound hrp s' v p' h'
+  have : m = m' := by
+    cases m <;> cases m' <;> simp_all
+  subst this
+  exact Bech32.detect_le2 s s' hrp d d' m hdec hdec' hlen hd
+
+/-- Bech32 / Bech32m detect every substitution of up to THREE characters in the data part: same statement as
+    `bech32_detects_le2_substitutions` with distance ≤ 3. The additional kernel computation (`orbit3_tab_a/b`,
+    `decide +kernel`) re-computes the 2759 values (x^k·u mod g) >>> 5, u = 1..31, k = 1..89, with the GENERATED
+    polymod step and checks each against a certificate tree (Proofs/C15BchTree.lean) that maps the value to
+    128·u + k; a weight-3 error word with zero syndrome would make two of these values with different k equal.
+    Outside the statement (exactly as for ≤ 2): a corrupted string accepted under the OTHER checksum variant
+    (Bech32 ↔ Bech32m; syndrome 1 xor 0x2bc830a3 instead of 0), substitutions that change the position of the
+    last '1' (then the hrp differs), insertions and deletions (then the length differs). -/
+theorem bech32_detects_le3_substitutions (s s' hrp d d' : Bytes) (m : Bool)
+    (h : Bech32.decode s = some (hrp, d, m)) (h' : Bech32.decode s' = some (hrp, d', m))
+    (hlen : s.length = s'.length)
+    (hd : Bech32.hamming (s.map Addr.asciiLower) (s'.map Addr.asciiLower) ≤ 3) :
+    s.map Addr.asciiLower = s'.map Addr.asciiLower :=
+  Bech32.detect_gen 3 Bech32.pf_detect3 s s' hrp d d' m h h' hlen hd
+
+/-- non-vacuity: the hypotheses are satisfiable (an accepted string against itself) -/
+example : Bech32.decode [97, 49, 50, 117, 101, 108, 53, 108] = some ([97], [], false) ∧
+    Bech32.hamming [97, 49, 50, 117, 101, 108, 53, 108] [97, 49, 50, 117, 101, 108, 53, 108] ≤ 3 := by decide +kernel
+
+/-- segwit level, ≤ 3: two strings accepted by `SegwitDecode` for the same hrp with the same witness version, of
+    equal length, at case-insensitive distance ≤ 3 are equal up to case. Since the witness version fixes the
+    checksum variant, the only excluded typos are those that change the version symbol, the separator
+    position or the length. -/
+theorem segwit_detects_le3_substitutions (hrp s s' p p' : Bytes) (v : Nat)
+    (h : segwitDecode hrp s = .ok (v, p)) (h' : segwitDecode hrp s' = .ok (v, p'))
+    (hlen : s.length = s'.length)
+    (hd : Bech32.hamming (s.map Addr.asciiLower) (s'.map Addr.asciiLower) ≤ 3) :
+    s.map Addr.asciiLower = s'.map Addr.asciiLower := by
+  obtain ⟨_, _, _, _, d, m, hdec, hm⟩ := segwitDecode_sound hrp s v p h
+  obtain ⟨_, _, _, _, d', m', hdec', hm'⟩ := segwitDecode_sound hrp s' v p' h'
+  have : m = m' := by
+    cases m <;> cases m' <;> simp_all
+  subst this
+  exact Bech32.detect_gen 3 Bech32.pf_detect3 s s' hrp d d' m hdec hdec' hlen hd
+
 /-
-  -- OPEN: error DETECTION as a distance property ("any string obtained from a valid address by up to 4
-  --   character substitutions is refused") is NOT proved: it needs the minimum distance of the BCH code
-  --   behind the generated polymod step. What is proved instead is uniqueness: by `segwit_encode_decode`
-  --   an accepted string is, up to case, THE encoding of what it decodes to, so a corrupted string can only
-  --   be accepted as a different (version, program), never silently as the original one; the ≤4-edit
-  --   neighbourhood of valid addresses is covered by the correspondence run against the BIP173/350
-  --   reference (mutation stream), not by a theorem.
-  -- OPEN: private-key WIF strings (lib/btc/wallet.go DecodePrivateAddr / PrivateAddr.String) are not
-  --   modelled; only their Base58 layer (`b58_decode_encode`, `encode_fits`) is covered.
-  -- OPEN: `addr_string_roundtrip` for a Base58 address that carries a cached string (`Enc58str`, i.e. an
-  --   address that itself came from NewAddrFromString) is the identity on the string by definition of
-  --   `String()`; the decode→encode direction "String() of the parsed address = the typed string" for
-  --   Base58 is therefore trivial in the model and is checked on the real code by the harness
-  --   (addr-reencode), for segwit it is `segwit_encode_decode`.
+  -- OPEN: error detection for FOUR substitutions (BIP173's "up to 4"). Full statement:
+  --   `bech32_detects_le3_substitutions` with `≤ 4` in place of `≤ 3`. Exact reduction (same lemmas as weight 3:
+  --   `pf_xor`, `iter_xor`, `iter_inj0`, `shr5_eq_of_xor_small`): a weight-4 error word of ≤ 89 symbols with zero
+  --   syndrome gives x^k1·u + x^k2·v + x^k3·w = z (constant), 89 ≥ k1 > k2 > k3 ≥ 1, u,v,w ≠ 0, hence
+  --   H(u,k1) xor H(v,k2) = H(w,k3) for the 2759 certified values H(u,k) = (x^k·u mod g) >>> 5. Sufficient kernel
+  --   check: for all pairs of table entries with k1 ≠ k2, `orbitTree.lookup (H1 xor H2) = none` (lookup is `some`
+  --   on every table value by `orbit_lookup`) — 31²·C(89,2) ≈ 3.76·10^6 pair look-ups of ≈ 24 Nat comparisons.
+  --   MEASURED on this machine (decide +kernel, list literal of the 2759 values, 27 590 pair look-ups): 64 s,
+  --   i.e. ≈ 430 pair look-ups/s ≈ 10^4 comparisons/s ⇒ ≈ 2.4 h for weight 4 — not feasible within the build
+  --   budget. A GF(32)-scaling argument (normalise u = 1; needs GF(32)-linearity of the step, which is NOT
+  --   proved — only GF(2)-linearity `ps_lin` is) would divide this by 31 (≈ 5 min), still too slow here.
+  --   Brute force over C(90,4)·31^4 ≈ 2.4·10^12 patterns is out of reach.
+  -- OUTSIDE the distance theorems (≤ 2 and ≤ 3), by their hypotheses: (a) a corrupted string that is accepted under
+  --   the OTHER checksum variant (Bech32 ↔ Bech32m, error syndrome = 1 xor 0x2bc830a3): at the `SegwitDecode`
+  --   level this needs the version symbol to change between 0 and non-0 as well, and the segwit theorems assume
+  --   the same version; (b) substitutions that put a '1' into the data part or remove the separator (the hrp then
+  --   differs); (c) insertions / deletions (length differs). For all of these only uniqueness is proved
+  --   (`segwit_encode_decode`: an accepted string is, up to case, THE encoding of what it decodes to, so a
+  --   corrupted string is never silently accepted as the original destination); the ≤4-edit neighbourhood is
+  --   searched by the correspondence run against the BIP173/350 reference (mutation stream), not by a theorem.
+  -- OPEN (known finding, not a proof gap): WIF decode → re-encode for a 38-byte payload whose flag byte is not 01
+  --   is false of the code (`wif_flag_byte_unchecked_counterexample`).
 -/
 
 end GocoinV.Props.C15
